@@ -38,7 +38,7 @@ let scenario toks =
     done;
     List.iteri (fun i st ->
         let d = n_of_int (Char.code st.[0] - 48) in
-        let v = if String.length st > 2 then int_of_string (String.sub st 2 (String.length st - 2)) else 0 in
+        let v = if String.length st > 2 then (try int_of_string (String.sub st 2 (String.length st - 2)) with _ -> 0) else 0 in
         let e = match st.[1] with
           | 'R' -> Recv (d, MROAccessReport, Some (n_of_int i), false)
           | 'E' -> Recv (d, MReaderEventNotification, Some (n_of_int i), v = 4)
